@@ -3,8 +3,8 @@ import IRModel.Tables
   L4 — `CodeWrapper.__init__` for two-duration symbol tables WITHOUT middle timings on the general
   ("halfbit") path, i.e. tables whose symbols are not mirror images of each other
   (code_wrapper.py:135-332, 561-750 with `middle_timings == []`), and `get_value`.
-  The Manchester and duration-multiple paths and middle timings are not modelled here; tables that
-  need them are classified `unsupported` and stay outside the theorems.
+  The Manchester path for tables without middle timings follows below (`parseWithM`); the duration-multiple path and
+  middle timings are not modelled; tables that need them are `unsupported` and stay outside the theorems.
 -/
 namespace IRModel.CodeWrapper
 open IRModel IRModel.Py IRModel.Match IRModel.Bits
@@ -163,8 +163,68 @@ def parseWith (tol : Tol) (leadIn leadOut : List Int) (bursts : List (Int × Int
       | none => 0
     pure { bits := bits, cleaned := compress (body ++ [last]) }
 
+/-! ### the Manchester path (tables without middle timings; code_wrapper.py:362-381, 503-531) -/
+
+/-- one duration of a bi-phase stream -/
+def manchOne (tol : Tol) (mark space burst : Int) : Option (List Int) :=
+  if isMatch tol burst mark then some [mark]
+  else if isMatch tol burst space then some [space]
+  else if isMatch tol burst (mark * 2) then some [mark, mark]
+  else if isMatch tol burst (space * 2) then some [space, space]
+  else none
+
+def manchAll (tol : Tol) (mark space : Int) : List Int → Except PyErr (List Int)
+  | [] => .ok []
+  | b :: rest =>
+    match manchOne tol mark space b with
+    | none => .error .irStream
+    | some v => (manchAll tol mark space rest).map (v ++ ·)
+
+def supportedM (t : Tables) : Bool :=
+  t.shape == .pairs && !t.hasMiddle && streamEnc t.bursts == .manchester && !t.bursts.isEmpty &&
+  t.leadIn.getLast? != some (-999999999999)
+
+/-- `CodeWrapper(...)` on the Manchester path -/
+def parseWithM (tol : Tol) (leadIn leadOut : List Int) (bursts : List (Int × Int)) (data : List Int) :
+    Except PyErr Parsed := do
+  periodCheck tol leadOut data
+  let totalTime := sumAbs data.dropLast
+  let (code1, cleanedIn) ← leadInLoop tol bursts leadIn data []
+  let (code2, half, cleanedLo) ← leadOutLoop tol bursts leadOut.length totalTime leadOut 0 code1 [] []
+  let code3 := code2 ++ half
+  let ms := bursts.headD (0, 0)
+  let vals ← manchAll tol ms.1 ms.2 code3
+  let (bits, extra) ← pairsToBits bursts (pairUp vals)
+  let cleaned0 : List (Option Int) := (cleanedIn ++ vals ++ extra).map some ++ cleanedLo
+  if cleaned0.isEmpty then .error .irStream
+  else
+    let body := cleaned0.dropLast.map (·.getD 0)
+    let last : Int := match cleaned0.getLast? with
+      | some (some v) => v
+      | some none => -(leadOut.getLastD 0) + sumAbs body
+      | none => 0
+    pure { bits := bits, cleaned := compress (body ++ [last]) }
+
+/-- `CodeWrapper(encoding, lead_in, lead_out, [], bursts, tolerance, code)`: the constructor takes the Manchester path
+    when the symbol table is bi-phase, the general path otherwise -/
 def parse (t : Tables) (tol : Tol) (data : List Int) : Except PyErr Parsed :=
-  parseWith tol t.leadIn t.leadOut t.bursts data
+  match streamEnc t.bursts with
+  | .manchester => parseWithM tol t.leadIn t.leadOut t.bursts data
+  | .general => parseWith tol t.leadIn t.leadOut t.bursts data
+
+theorem parse_general {t : Tables} (h : streamEnc t.bursts = .general) (tol : Tol) (data : List Int) :
+    parse t tol data = parseWith tol t.leadIn t.leadOut t.bursts data := by
+  unfold parse; rw [h]
+
+theorem parse_manchester {t : Tables} (h : streamEnc t.bursts = .manchester) (tol : Tol) (data : List Int) :
+    parse t tol data = parseWithM tol t.leadIn t.leadOut t.bursts data := by
+  unfold parse; rw [h]
+
+theorem supported_general {t : Tables} (h : supported t = true) : streamEnc t.bursts = .general := by
+  unfold supported at h
+  simp only [Bool.and_eq_true, beq_iff_eq] at h
+  exact h.1.2
+
 
 /-- `get_value(start, stop)` as a number -/
 def fieldValue (o : Order) (bits : List Nat) (start stop : Nat) : Nat :=
